@@ -72,8 +72,16 @@ def zip_rule(ctx, fv):
     it = fv.term(loop["iter"])
     sp_ = ("param", param_index(fv, "seq"))
     freqs = ("call", S2K, ("self",), sp_)
-    ok = it[0] == "call" and it[1].endswith("Iterator::zip") and it[2][0] == "call" and it[2][1].endswith("::iter") \
-        and it[2][2] == SF("kmers") and it[3][0] == "call" and it[3][1].endswith("::iter") and it[3][2] == freqs
+    item0 = ("item", it)
+    if it[0] == "call" and it[1].endswith("Iterator::zip"):
+        ok = it[2][0] == "call" and it[2][1].endswith("::iter") \
+            and it[2][2] == SF("kmers") and it[3][0] == "call" and it[3][1].endswith("::iter") and it[3][2] == freqs
+        kmer_t, freq_t = ("proj", 0, item0), ("proj", 1, item0)
+    else:
+        # equivalent: `for (idx, kmer) in self.kmers.iter().enumerate() { let freq = freqs[idx]; .. }`
+        X, idx, is_elem = indexed_traversal(it)
+        ok = X == SF("kmers") and it[0] == "call" and it[1].endswith("Iterator::enumerate")
+        kmer_t, freq_t = ("proj", 1, item0), ("index", freqs, ("proj", 0, item0))
     ctx.check("C12.Z", "vectorise_one:zip", ok, "kmers.iter().zip(seq_to_kmer(seq).iter())",
               "per-k-mer loop iterates `%s`; expected self.kmers.iter().zip(<seq_to_kmer(seq)>.iter()) — columns and "
               "frequencies must be paired in rank order" % show(it), line_of(loop))
@@ -95,13 +103,13 @@ def zip_rule(ctx, fv):
         mv = ("local", lets[0]["pat"]["name"], lets[0]["pat"]["id"])
         arg = fv.term(pushes[0]["args"][0])
         okp = idx_inner is not None and idx_push is not None and idx_push > idx_inner \
-            and arg == ("tup", mv, ("proj", 1, item)) and not any(a is inner for a in fv.ancestors(pushes[0]))
+            and arg == ("tup", mv, freq_t) and not any(a is inner for a in fv.ancestors(pushes[0]))
     ctx.check("C12.R", "vectorise_one:one_triple_per_kmer", okp, "push((end point, *freq)) once per k-mer after the base loop",
               "expected exactly one `push((marker, *freq))` after the inner loop, with freq the zipped frequency; found %s"
               % [show(fv.term(p["args"][0])) for p in pushes], line_of(pushes[0]) if pushes else line_of(loop))
     # inner loop runs over the k-mer's text
     iit = fv.term(inner["iter"])
-    ctx.check("C12.R", "vectorise_one:kmer_text", iit == ("proj", 0, item), "base loop runs over the zipped k-mer text",
+    ctx.check("C12.R", "vectorise_one:kmer_text", iit == kmer_t, "base loop runs over the zipped k-mer text",
               "inner loop iterates `%s`, expected the bytes of the zipped k-mer" % show(iit), line_of(inner))
     res = fv.term(fv.body.get("expr")) if fv.body.get("expr") else ("none",)
     okr = res[0] == "call" and res[1].endswith("::Ok") and pushes and res[2] == fv.term(pushes[0]["recv"])
